@@ -373,6 +373,7 @@ class Arnoldi(KrylovBased):
         Returns the number of steps performed.
         """
         h = self._h_krylov
+        self._cache = []  # drop the basis of a previous run()
         w = self.psi0  # initialize
         norm = npc.norm(w)
         for k in range(self.N_max):
